@@ -29,7 +29,7 @@ PLAIN = [
 ]
 REFS = ["JP {L}", "JPZ {L}", "CALL {L}", "CALLF {L}", "JPF {L}", "MV X, {L}", "MV BA, {L}", "MV A, [{L}]", "defw {L}", "defl {L}", "defb {L}, 1",
         "jp {l}", "MV A, [X+{L}]", "MV [(BP+0x10)-{L}], A"]
-LOCS = ["SECTION code", "SECTION data", "SECTION bss", ".ORG 0x100", ".ORG 0x10100", ".ORG {L}"]
+LOCS = ["SECTION code", "SECTION data", "SECTION bss", ".ORG 0x100", ".ORG 0x10100", ".ORG 0x1FFFD", ".ORG {L}"]
 
 
 def palette(full: bool) -> List[Tuple[str, str]]:
@@ -293,7 +293,7 @@ def all_programs(thorough: bool, seed: int) -> List[Tuple]:
     return progs
 
 
-SMALL = ("NOP", "MV X, 0x12345", "defb 1, 2, 3", "defs 3", "SECTION data", "SECTION bss", "SECTION code",
+SMALL = ("NOP", ".ORG 0x1FFFD", "MV X, 0x12345", "defb 1, 2, 3", "defs 3", "SECTION data", "SECTION bss", "SECTION code",
          ".ORG 0x100", ".ORG 0x10100", "JP {L}", "CALLF {L}", "MV X, {L}", "defw {L}", ".ORG {L}")
 
 
